@@ -369,6 +369,10 @@ let () =
          reply "ok"
        | ["waitpid"; nh] -> reply_presult (serve_pcall (PopenSM.PWaitpid (nh = "1")))
        | ["kill"; sg] -> reply_presult (serve_pcall (PopenSM.PKill (n_of_int (int_of_string sg))))
+       | ["fkill"; pid; sg] ->
+         diverge (Printf.sprintf "E1:PopenSM op#%d: real=kill(pid %s, sig %s) aimed at a foreign pid" !opidx pid sg);
+         Buffer.add_string op_log (Printf.sprintf " FOREIGNKILL(%s,%s)" pid sg);
+         reply "ok"
        | ["pclock"] -> reply_presult (serve_pcall PopenSM.PClock)
        | ["sleep"; ns] -> reply_presult (serve_pcall (PopenSM.PSleep (n_of_int (int_of_string ns))))
        | ["opret"; name; v] ->
